@@ -11,7 +11,10 @@ Record case := mkcase {
   c_doc : jv;                     (* the JSON document (numbers as tokens, float oracle attached) *)
   c_obs : obs;                    (* mapping.UnmarshalJsonBytes: dump of the struct | error | panic *)
   c_yaml : option (yv * obs);     (* the same content as YAML and mapping.UnmarshalYamlBytes' outcome *)
-  c_conf : option (jv * obs);     (* the same content with re-spelled keys and conf.LoadFromJsonBytes' outcome *)
+  c_conf : option (jv * obs * option obs);
+                                  (* the same content with re-spelled keys (snake_case / UpperCamel at every struct level,
+                                     also inside nested lists and maps), conf.LoadFromJsonBytes' outcome and, when the
+                                     document is in the YAML subset, conf.LoadFromYamlBytes' outcome *)
   c_keys : list (string * string); (* (key spelling, conf.toCamelCase of it) observed *)
   c_outside : bool;               (* shape/document outside the modelled universe: checked for panic-freedom only *)
   c_rt : option (val * val * obs) (* round trip: intended request value, the value the driver built (sent with
@@ -32,7 +35,7 @@ Definition jv_eqb : jv -> jv -> bool :=
     | JNull, JNull => true
     | JBool x, JBool y => Bool.eqb x y
     | JNum r1 _, JNum r2 _ => String.eqb r1 r2
-    | JStr x, JStr y => String.eqb x y
+    | JStr x _, JStr y _ => String.eqb x y
     | JArr l1, JArr l2 => all2 (fun x y => go x y) l1 l2
     | JObj m1, JObj m2 => all2 (fun p q => String.eqb (fst p) (fst q) && go (snd p) (snd q)) m1 m2
     | _, _ => false
@@ -59,7 +62,9 @@ Definition model_ok (c : case) : bool :=
   end &&
   match c_conf c with
   | None => true
-  | Some (d, o) => res_matches (unmarshal n (camel_ty (c_ty c)) (camel_keys d)) o
+  | Some (d, o, oy) =>
+      res_matches (unmarshal n (camel_ty (c_ty c)) (camel_keys d)) o &&
+      match oy with None => true | Some o' => res_matches (unmarshal n (camel_ty (c_ty c)) (camel_keys d)) o' end
   end &&
   forallb (fun kc => String.eqb (to_camel_case (fst kc)) (snd kc)) (c_keys c) &&
   match c_rt c with
@@ -75,11 +80,11 @@ Definition obs_eqb (a b : obs) : bool :=
   end.
 
 (* --- the property, on the observed behaviour alone --- *)
-Definition obs_ok (t : ty) (d : jv) (o : obs) : bool :=
+Definition obs_ok (tol : tolerance) (t : ty) (d : jv) (o : obs) : bool :=
   match o with
   | OPanic => false                                   (* it never panics *)
   | OErr => true                                      (* failing with an error is always allowed *)
-  | OOk v => agrees t d v                        (* exact, defaults, optional zero, required, options, range *)
+  | OOk v => agrees_t tol t d v                       (* exact, defaults, optional zero, required, options, range *)
   end.
 
 (* "optional absent fields stay zero": a document that leaves out every field of an all-optional struct cannot
@@ -89,13 +94,22 @@ Definition all_optional_absent (t : ty) (d : jv) : bool :=
   | Struct fs, JObj m =>
       forallb (fun f => negb (f_anon f) && o_optional (f_opts f) &&
                         (match o_default (f_opts f) with None => true | Some _ => false end) &&
+                        (match o_dep (f_opts f) with None => true | Some _ => false end) &&
                         negb (has_key (f_key f) m)) fs
   | _, _ => false
   end.
 
-Definition spec_ok (c : case) : bool :=
+Definition conf_same (orig o : obs) : bool :=
+  match o with OPanic => false | _ => true end &&
+  match orig, o with
+  | OOk v, OOk w => val_eqb v w
+  | OOk _, OErr => false
+  | _, _ => true
+  end.
+
+Definition spec_ok_t (tol : tolerance) (c : case) : bool :=
   if c_outside c then match c_obs c with OPanic => false | _ => true end else
-  obs_ok (c_ty c) (c_doc c) (c_obs c) &&
+  obs_ok tol (c_ty c) (c_doc c) (c_obs c) &&
   (if all_optional_absent (c_ty c) (c_doc c) then match c_obs c with OOk _ => true | _ => false end else true) &&
   match c_yaml c with
   | None => true
@@ -105,14 +119,10 @@ Definition spec_ok (c : case) : bool :=
   end &&
   match c_conf c with
   | None => true
-  | Some (d, o) =>
-      (* keys re-spelled in snake_case / other initial case: config loading gives the same struct *)
-      match o with OPanic => false | _ => true end &&
-      match c_obs c, o with
-      | OOk v, OOk w => val_eqb v w
-      | OOk _, OErr => false
-      | _, _ => true
-      end
+  | Some (d, o, oy) =>
+      (* keys re-spelled in snake_case / other initial case, at any depth: config loading (JSON and YAML) gives the
+         same struct as the canonical spelling *)
+      conf_same (c_obs c) o && match oy with None => true | Some o' => conf_same (c_obs c) o' end
   end &&
   match c_rt c with
   | None => true
@@ -120,3 +130,13 @@ Definition spec_ok (c : case) : bool :=
       (* a well-formed request struct sent with the client helper is parsed back into an equal struct *)
       match o with OOk w => val_eqb built w | _ => false end
   end.
+
+(* the property *)
+Definition spec_ok (c : case) : bool := spec_ok_t TNone c.
+
+(* the property with exactly one known-unenforced clause masked (KNOWN_FINDINGS classes): a failing case belongs
+   to class k iff spec_ok c = false and the k-masked checker accepts it -- i.e. that clause is the sole reason *)
+Definition spec_mask_dur (c : case) : bool := spec_ok_t TDur c.
+Definition spec_mask_slice (c : case) : bool := spec_ok_t TSliceElem c.
+Definition spec_mask_map (c : case) : bool := spec_ok_t TMapElem c.
+Definition spec_mask_default (c : case) : bool := spec_ok_t TDefault c.
